@@ -2,7 +2,7 @@
 import numpy as np
 import impl
 from gen import grid, data, unc
-from .common import arr, tolist, relerr, confusable, history_differs
+from .common import arr, tolist, relerr, confusable, history_differs, exceeds
 from .c16 import groom
 
 LEAN = "PystogVerif.Props.C14"
@@ -93,7 +93,7 @@ def evaluate(case):
         if ref is not None:
             rF, gF = ref
             _, gP, _ = t.S_to_g(q, sq, rF, rho=ft["rho"], lorch=True, OmittedXrangeCorrection=True)
-            if np.abs(np.asarray(gP) - gF).max() > 1e-9 * max(1.0, float(np.abs(gF - 1).max())):
+            if exceeds(np.abs(np.asarray(gP) - gF).max(), 1e-9 * max(1.0, float(np.abs(gF - 1).max()))):
                 fails.append(f"Lorch-damped S_to_g differs from the compiled Fortran stog_bit with its window by {np.abs(np.asarray(gP) - gF).max():.3g}")
     return fails
 
